@@ -356,7 +356,7 @@ struct LifeHttpHandler : public Http::Handler {
     }
     void onDisconnection(const std::shared_ptr<Tcp::Peer>& peer) override { std::lock_guard<std::mutex> g(g_m); PeerLife& l = g_life[peer->getID()]; l.disc++; l.events += 'D'; l.obj = peer; }
 };
-static const char* BEHAVIOUR[] = {"connect-close", "partial-then-close", "exchange-then-close", "half-close-then-read", "reset", "reset-with-pending-response", "silence-until-idle-timeout", "armed-timeout-answered-before", "keepalive-3-requests-then-close", "exchange-then-silence-until-idle-timeout", "slow-request-keeps-worker-busy", "partial-then-immediate-close-while-worker-busy", "send-and-half-close-at-once-while-worker-busy", "request-a-streamed-response-then-reset", "long-poll-then-leave-before-the-response-time-out", "unread-response-then-silence-past-the-idle-time-out-then-close", "silence-past-the-idle-time-out-then-orderly-close", "slow-request-keeps-worker-busy-past-the-idle-time-out", "reset-with-pending-file-response", "file-response-read-to-the-end", "head-completed-past-the-time-out-asks-for-a-streamed-response"};
+static const char* BEHAVIOUR[] = {"connect-close", "partial-then-close", "exchange-then-close", "half-close-then-read", "reset", "reset-with-pending-response", "silence-until-idle-timeout", "armed-timeout-answered-before", "keepalive-3-requests-then-close", "exchange-then-silence-until-idle-timeout", "slow-request-keeps-worker-busy", "partial-then-immediate-close-while-worker-busy", "send-and-half-close-at-once-while-worker-busy", "request-a-streamed-response-then-reset", "long-poll-then-leave-before-the-response-time-out", "unread-response-then-silence-past-the-idle-time-out-then-close", "silence-past-the-idle-time-out-then-orderly-close", "slow-request-keeps-worker-busy-past-the-idle-time-out", "reset-with-pending-file-response", "file-response-read-to-the-end", "head-completed-past-the-time-out-asks-for-a-streamed-response", "long-poll-until-the-response-time-out-fires"};
 static std::atomic<int> g_foreign_bytes{0};
 static std::atomic<int> g_own_408{0};
 static std::string g_foreign_detail;
@@ -401,6 +401,12 @@ static void client_behaviour(int port, int b, bool http, Rng& r) {
     case 12: lv::msleep(r.range(20, 90)); c.send_all(http ? "GET /par" : "hel"); c.half_close(); lv::msleep(300); break;
     case 13: c.send_all(http ? req("/stream") : "hello /x\n"); lv::msleep(r.range(5, 40)); c.rst_close(); return;
     case 14: c.send_all(http ? req("/longpoll") : "hello /x\n"); lv::msleep(r.range(10, 80)); if (r.chance(1, 2)) { c.rst_close(); return; } break;
+    case 21: {   // the handler parks the writer with a 250 ms response time-out and never answers: the timer fires with the client still there, the
+                 // framework's onTimeout answers 408 on a writer of its own; the client reads that answer, waits a little and leaves
+        c.send_all(req("/longpoll")); lv::HttpMsg m = lv::read_response(c, buf, 0, (int)(4000 * lv::load_factor()));
+        if (!m.complete || m.status != 408) { if (g_foreign_bytes++ == 0) { std::lock_guard<std::mutex> g(g_m); g_foreign_detail = "long poll past its response time-out: " + (m.complete ? "status " + std::to_string(m.status) : "no answer (" + m.error + ")"); } }
+        else g_own_408++;
+        lv::msleep(r.range(0, 60)); break; }
     case 9: c.send_all(req("/x")); readReply(); { bool eof = false; double end = lv::now() + 4.0; std::string t; while (!eof && lv::now() < end) c.read_some(t, 100, 1 << 20, &eof); } break;
     default: for (int k = 0; k < 3; k++) { c.send_all(req("/k" + std::to_string(k))); readReply(); } break;
     }
@@ -449,11 +455,12 @@ static void run_c08(long cases) {
         for (int k = 0; k < nclients; k++) {
             int b = r.range(0, 16);
             if (http && r.chance(1, 8)) b = r.chance(2, 3) ? 18 : 19;
+            if (http && r.chance(1, 10)) b = 21;
             if (stallRound) { static const int QUIET[] = {0, 1, 4, 16, 16, 20, 12, 11, 20}; b = k == 0 ? 17 : k <= 2 ? 16 : r.pick(QUIET); }
             if (!stallRound && k == 0 && r.chance(1, 2)) b = 10;
             if ((b == 15 || b == 16 || b == 20) && (!http || longTimeouts)) b = 5;
             if (g_opts.num("behaviour", -1) >= 0) b = (int)g_opts.num("behaviour", -1);
-            if (!http && (b == 6 || b == 7 || b == 9)) b = r.range(0, 5);
+            if (!http && (b == 6 || b == 7 || b == 9 || b == 21)) b = r.range(0, 5);
             if (longTimeouts && (b == 6 || b == 9)) b = r.range(10, 12);   // idle time-out / response timers exist on the HTTP endpoint only
             behaviours.push_back(b);
             uint64_t cs = r.next();
